@@ -1084,6 +1084,20 @@ fn handle(st: &mut St, line: &str) -> Result<String, String> {
                 Err(_) => Ok("err".into()),
             }
         }
+        "PRE" => {
+            // a store directory that does not hold a store yet but whose event.map already exists, <len> zero bytes long (a file
+            // pre-sized by an operator, or left behind by an interrupted creation); the next OPN is its first open
+            st.store = None;
+            let dir = std::path::PathBuf::from(a[0]);
+            let len: u64 = a[1].parse().map_err(|_| "len".to_string())?;
+            let _ = std::fs::remove_dir_all(&dir);
+            std::fs::create_dir_all(&dir).map_err(|e| e.to_string())?;
+            let f = std::fs::File::create(dir.join("event.map")).map_err(|e| e.to_string())?;
+            f.set_len(len).map_err(|e| e.to_string())?;
+            st.dir = Some(dir);
+            st.tables = vec![];
+            Ok("ok".into())
+        }
         "OPN" => {
             st.store = None;
             let dir = if !a.is_empty() && !a[0].is_empty() {
@@ -1136,6 +1150,28 @@ fn handle(st: &mut St, line: &str) -> Result<String, String> {
                 let _ = std::fs::remove_dir_all(&d);
             }
             Ok("ok".into())
+        }
+        "FSZ" => {
+            // fault injection: run the nested store request with the process's file-size limit (RLIMIT_FSIZE, soft) set to the
+            // present length of event.map plus <extra> bytes: growing the map then fails with EFBIG (SIGXFSZ ignored), as on a
+            // full disk or under a quota; LMDB's own file is smaller than that and is not affected
+            let store = st.store.as_ref().ok_or("nostore")?;
+            let d = st.dir.clone().ok_or("nodir")?;
+            let extra: u64 = a[0].parse().map_err(|_| "extra".to_string())?;
+            let len = std::fs::metadata(d.join("event.map")).map_err(|e| e.to_string())?.len();
+            let mut old = libc::rlimit { rlim_cur: 0, rlim_max: 0 };
+            unsafe {
+                libc::signal(libc::SIGXFSZ, libc::SIG_IGN);
+                libc::getrlimit(libc::RLIMIT_FSIZE, &mut old);
+                let lim = libc::rlimit { rlim_cur: len + extra, rlim_max: old.rlim_max };
+                libc::setrlimit(libc::RLIMIT_FSIZE, &lim);
+            }
+            let r = store_req(store, a[1], &a[2..]);
+            unsafe {
+                libc::setrlimit(libc::RLIMIT_FSIZE, &old);
+            }
+            let lmdb = std::fs::metadata(d.join("lmdb").join("data.mdb")).map(|m| m.len()).unwrap_or(0);
+            r.map(|x| format!("limit={} lmdb={} {}", len + extra, lmdb, x))
         }
         "KIL" | "TRC" | "CON" | "STRESS" | "MLN" => conc::handle(st, cmd, &a),
         _ => {
